@@ -960,7 +960,7 @@ func oracleC20(w *World, c *Case) {
 
 func init() {
 	register(&CheckDef{ID: "C12", Level: "exploration", Engine: "A", Draw: func(t *rapid.T) *Case {
-		if drawBool(t, "transportworld", 25) {
+		if drawBool(t, "transportworld", 25) || osGetenv("VERIF_C12_TRANSPORT") != "" {
 			return drawC12Transport(t)
 		}
 		return drawFlow(t, "C12")
